@@ -472,7 +472,7 @@ func stackClasses(frames []string) []string {
 		{"box-building", "boxes.BuildFormattingStructure"}, {"cascade", "tree.GetAllComputedStyles"}, {"parsing", "tree.NewHTML"},
 		// output proportional to the geometry (known out-of-memory findings)
 		{"leader", "layout.handleLeader"}, {"border-drawing", "document.clipBorderSegment"}, {"border-drawing", "drawContext.drawBorder"},
-		{"decoration-drawing", "drawTextDecoration"},
+		{"decoration-drawing", "drawTextDecoration"}, {"gradient", "GradientSpread"},
 		// name-following code
 		{"counter-style", "css/counters."}, {"counter-style-extends", "CounterStyle.extendsChain"}, {"svg", " svg."}, {"images", " images."},
 		{"var-resolution", "tree.resolveVar"}, {"stylesheet-import", "tree.preprocessStylesheet"}, {"target-collector", "TargetCollector"},
